@@ -340,6 +340,7 @@ Inductive case :=
 
 Definition SEP : Z := -7.
 Definition SAME : Z := -8.
+Definition DIFF : Z := -9.
 
 Fixpoint list_eqb (a b : list Z) : bool :=
   match a, b with
@@ -349,8 +350,9 @@ Fixpoint list_eqb (a b : list Z) : bool :=
   end.
 
 
-(* Codec: the frames and final status when the segments are fed one by one, a separator, then the
-   same for the whole stream fed at once — abbreviated to [SAME] when the two are identical.
+(* Codec: SAME followed by the frames and final status when the segments are fed one by one, if
+   feeding the whole stream at once gives the identical result; otherwise DIFF, the segmented
+   result, a separator, the whole-stream result.
    Send: the bytes emitted, then how the run ended. *)
 Definition run (c : case) : list Z :=
   match c with
@@ -358,14 +360,8 @@ Definition run (c : case) : list Z :=
       let o := mk_cfg mms msl in
       let a := render (feed_all o segs) in
       let b := render (drain_all o (concat segs)) in
-      a ++ [SEP] ++ (if list_eqb a b then [SAME] else b)
+      if list_eqb a b then SAME :: a else DIFF :: a ++ [SEP] ++ b
   | Send mc msgs ks => sb_run (sb_fuel msgs ks) (sb_init mc) msgs ks
-  end.
-
-Fixpoint split_at (m : Z) (l : list Z) : list Z * list Z :=
-  match l with
-  | [] => ([], [])
-  | x :: r => if x =? m then ([], r) else let '(a, b) := split_at m r in (x :: a, b)
   end.
 
 Fixpoint is_prefix (a b : list Z) : bool :=
@@ -388,17 +384,16 @@ Fixpoint accepted (mc : Z) (msgs : list (list (list Z))) : list (list (list Z)) 
   end.
 
 (* the property.
-   Codec: what the receiver got from the segmented stream equals what it gets from the whole
-   stream (both are the IMPLEMENTATION's; the harness abbreviates the second to SAME when equal),
-   and equals the reference framing of the whole stream.
+   Codec: what the receiver got from the segmented stream is identical to what it gets from the
+   whole stream fed at once (both are the IMPLEMENTATION's results, compared by the harness, which
+   reports SAME or DIFF with both; that the results are the model's framing is the job of the
+   correspondence check [run c = out]).
    Send: the emitted bytes are a prefix of the concatenation, in order, of the secured chunks of
    the accepted messages; the whole of it when the run went idle or stopped at a refused message;
    the only other ending is the writer schedule running out. *)
 Definition oracle (c : case) (out : list Z) : bool :=
   match c with
-  | Codec mms msl segs =>
-      let '(a, b) := split_at SEP out in
-      list_eqb b [SAME] && list_eqb a (render (drain_all (mk_cfg mms msl) (concat segs)))
+  | Codec mms msl segs => match out with x :: _ => x =? SAME | [] => false end
   | Send mc msgs ks =>
       let body := removelast out in
       let fin := last out 0 in
